@@ -974,7 +974,7 @@ func builtinHasKey(env *lisp.LEnv, args *lisp.LVal) *lisp.LVal {
 		if input.Type != lisp.LSortMap {
 			return lisp.ErrorConditionf(WrongType, "Input is not sorted map")
 		}
-		matched := false
+		matched := len(compares) == 0 // no allowed types: any value will do
 		// The !ok branch here is already the LOUD one: a map that cannot be
 		// searched for this key and a map that simply lacks it both fail.
 		// s:may-have-key's equivalent branch PASSES, which is why it needs the
@@ -1016,7 +1016,7 @@ func builtinMayHaveKey(env *lisp.LEnv, args *lisp.LVal) *lisp.LVal {
 		if input.Type != lisp.LSortMap {
 			return lisp.ErrorConditionf(WrongType, "Input is not sorted map")
 		}
-		matched := false
+		matched := len(compares) == 0 // no allowed types: any value will do
 		val, ok := input.Map().Get(schemaKey(key))
 		if !ok {
 			// Get signals two different things through the same false: "no
